@@ -155,3 +155,81 @@ Section Resolve.
       ++ (if forallb loaded bs && negb (is_nil bs) then [] else open_outcomes cur rest)
     end.
 End Resolve.
+
+(* ---- one referencing file across create/delete events (check_lsp_filechange.go: HandleFileEventChanges with one
+        event; check_all.go: RemoveFile; file_result.go: ReanalyseReferInfo / isReferFileContainFiles) ----
+   The referencing file `cur` is never itself created/deleted; the other files contain no references. *)
+Record ref_state := mk_ref {
+  rs_kind : rkind;
+  rs_str : list N;                 (* ReferInfo.ReferStr *)
+  rs_valid : bool;                 (* ReferInfo.Valid *)
+  rs_vstr : list (list N);         (* possible values of ReferInfo.ReferValidStr ([] = "") *)
+  rs_err : bool                    (* its type-6 diagnostic is in CheckErrVec *)
+}.
+
+Record pstate := mk_pstate {
+  ps_disk : list (list N);         (* regular files on disk *)
+  ps_idx : idx;                    (* AllProject.fileIndexInfo *)
+  ps_loaded : list (list N);       (* keys of AllProject.fileStructMap *)
+  ps_refs : list ref_state;        (* cur's ReferVec *)
+  ps_ambig : bool                  (* an earlier random choice among tied candidates decided the control flow *)
+}.
+
+Section Events.
+  Variable cfg : rcfg.
+  Variable cur : list N.
+  Variable fixed : bool.           (* false: RemoveOneFile as written; true: with work/fixes/C18-remove-key.diff *)
+
+  Definition disk_of (d : list (list N)) : list N -> bool := fun p => mem_bytes p d.
+
+  (* CheckReferFile on a ReferInfo whose Valid was just set to true; ReferValidStr is only overwritten on success *)
+  Definition reanalyse_ref (d : list (list N)) (st : idx) (r : ref_state) : ref_state :=
+    let o := check_refer (disk_of d) cfg st cur (rs_kind r) (rs_str r) in
+    mk_ref (rs_kind r) (rs_str r) (r_valid o)
+           (match r_resolved o with [] => rs_vstr r | l => l end) (r_err6 o).
+
+  Definition first_ref (d : list (list N)) (st : idx) (k : rkind) (s : list N) : ref_state :=
+    reanalyse_ref d st (mk_ref k s true [] false).
+
+  (* isReferFileContainFiles for the single changed file f: Some b = decided, None = depends on a random choice *)
+  Definition ref_touches (f : list N) (r : ref_state) : option bool :=
+    let s := remove_pre_str (rs_str r) in
+    if is_suffix s f || (negb (is_suffix lua_ext s) && is_suffix (s ++ lua_ext) f) then Some true
+    else if mem_bytes f (rs_vstr r)
+         then match rs_vstr r with [_] => Some true | _ => None end
+         else Some false.
+
+  Fixpoint any_touch (f : list N) (rs : list ref_state) : option bool :=
+    match rs with
+    | [] => Some false
+    | r :: t => match ref_touches f r with
+                | Some true => Some true
+                | Some false => any_touch f t
+                | None => match any_touch f t with Some true => Some true | _ => None end
+                end
+    end.
+
+  Definition del_bytes (f : list N) (l : list (list N)) : list (list N) :=
+    filter (fun g => negb (beq_bytes f g)) l.
+
+  Definition pstep (s : pstate) (e : op) : pstate :=
+    let f := match e with Ins p => p | Rem p => p end in
+    let d := match e with Ins p => if mem_bytes p (ps_disk s) then ps_disk s else ps_disk s ++ [p]
+                        | Rem p => del_bytes p (ps_disk s) end in
+    let st := match e with Ins p => idx_insert p (ps_idx s)
+                         | Rem p => if fixed then idx_remove_fixed p (ps_idx s) else idx_remove p (ps_idx s) end in
+    let ld := match e with Ins p => if mem_bytes p (ps_loaded s) then ps_loaded s else ps_loaded s ++ [p]
+                         | Rem p => del_bytes p (ps_loaded s) end in
+    (* ReanalyseReferInfo: only when cur has a type-6 error or one of its references touches the changed file *)
+    let has_err := existsb rs_err (ps_refs s) in
+    let touch := if has_err then Some true else any_touch f (ps_refs s) in
+    match touch with
+    | Some true => mk_pstate d st ld (map (reanalyse_ref d st) (ps_refs s)) (ps_ambig s)
+    | Some false => mk_pstate d st ld (ps_refs s) (ps_ambig s)
+    | None => mk_pstate d st ld (ps_refs s) true
+    end.
+
+  Definition pinit (disk lua : list (list N)) (refs : list (rkind * list N)) : pstate :=
+    let st := idx_run (map Ins lua) in
+    mk_pstate disk st lua (map (fun kr => first_ref disk st (fst kr) (snd kr)) refs) false.
+End Events.
